@@ -103,8 +103,10 @@ class Contract:
         self.modifies_ = list(paths)
         return self
 
-    def returns(self, T):
+    def returns(self, T, fresh=False):
+        """Result type; fresh=True: a newly allocated object."""
         self.returns_ = T
+        self.fresh_result = fresh
         return self
 
     def event(self, tag, *args):
@@ -129,8 +131,11 @@ class Contract:
         self.assumes_ += tags
         return self
 
-    def replay(self, fn):
-        self.replay_ = fn
+    def replay(self, harness, **inputs):
+        """Native replay: `harness` names a function of /verif/replay/
+        harness.py; inputs are spec expressions evaluated under the
+        counter-model."""
+        self.replay_ = (harness, inputs)
         return self
 
     def holds(self, *locks):
@@ -153,6 +158,19 @@ class Contract:
         if not hasattr(self, "at_user_call_"):
             self.at_user_call_ = []
         self.at_user_call_.append((label, expr, prop))
+        return self
+
+    def touch(self, *globs):
+        """Module globals of union type read by the function: split at entry."""
+        if not hasattr(self, "touch_"):
+            self.touch_ = []
+        self.touch_ += globs
+        return self
+
+    def inlined(self):
+        """Verified against this contract, but call sites execute the body
+        (used when the result type is not expressible as a schema type)."""
+        self.inline = True
         return self
 
     def is_generator(self):
@@ -248,6 +266,7 @@ class Schema:
         self.inline_funcs = set()
         self.aliases = {}
         self.user_calls = {}
+        self.spec_funcs = {}
         for n in self.exc_parent:
             self._exc_id(n)
         self.cls("<exc>", dict(cls=ty.Int, cause=ty.Exc(nullable=True),
